@@ -160,7 +160,9 @@ impl Ctx {
             .ok()
             .and_then(|s| s.parse::<u64>().ok())
             .unwrap_or(100);
-        (base.saturating_mul(scale) / 100).max(1)
+        // the checked lane is several times slower: it runs a quarter of the workload
+        let lane_div = if self.lane == "dbg" { 4 } else if self.lane == "asan" { 6 } else { 1 };
+        (base.saturating_mul(scale) / 100 / lane_div).max(1)
     }
     pub fn arg(&self, k: &str) -> Option<&str> {
         self.extra.get(k).map(|s| s.as_str())
